@@ -80,6 +80,9 @@ Ops == <<
   Op("pcap_read_all at-damage", TRUE, "pcap_read_all(PDMG)"),
   Op("pcap_read_all good-then-damage", FALSE, "pcap_read_all(pcap_open(\"$D/damaged.pcap\"))"),
   Op("pcap_read_all n good-then-damage", FALSE, "pcap_read_all(pcap_open(\"$D/damaged.pcap\"), 1)"),
+  \* a global header whose magic number is wrong in its low half only (a1b2cd34; a1b2 followed by zeros)
+  Op("pcap_open near-magic", TRUE, "pcap_open(\"$D/nearmagic.pcap\")"),
+  Op("pcap_open half-magic", TRUE, "pcap_open(\"$D/halfmagic.pcap\")"),
   \* a pcap stream on the standard output (a full device): a record bigger than the stream's buffer meets ENOSPC
   \* (PWOUT opens the stream and writes the record; a stream that cannot be opened any more is the failure then)
   Op("pcap_write stdout-stream full-device", TRUE, "PWOUT(MIDPKT)"),
